@@ -9,7 +9,8 @@
 EXTENDS Wire, Json, IOUtils, SequencesExt
 
 CONSTANTS BigSizes,      \* body lengths around buffer boundaries used in this tier
-          TripleStride   \* take every TripleStride-th triple
+          TripleStride,  \* take every TripleStride-th triple
+          HugeSizes      \* body lengths beyond the preallocation bound of the body reader (4 MiB): a handful of scripts only
 
 F(lname, style, words) == [lname |-> lname, style |-> style, words |-> words]
 T(name, lname, value) == [name |-> name, lname |-> lname, value |-> value, seen |-> value]
@@ -103,9 +104,20 @@ Triples == [k \in 1 .. Cardinality(TripleIdx) |->
               LET j == k * TripleStride IN
               <<Singles[j], Singles[((j * 7) % Len(Singles)) + 1], Probes[(k % Len(Probes)) + 1]>>]
 
-Scripts == [k \in 1 .. Len(Singles) |-> <<Singles[k]>>] \o Pairs \o PairsRev \o Triples \o AmbigScripts
+HugeReq(fr, n, cs) == [Probe("POST", "/huge", fr, n, cs) EXCEPT !.fields = <<HostField, F("x-a", "canon", <<"v1">>)>>]
+HugeSeq == SetToSeq(HugeSizes)
+HugeScripts == [k \in 1 .. Len(HugeSeq) |-> <<HugeReq("cl", HugeSeq[k], << >>), Probes[2]>>]
+               \o [k \in 1 .. Len(HugeSeq) |-> <<HugeReq("chunked", HugeSeq[k], <<HugeSeq[k]>>), Probes[1]>>]
+               \o [k \in 1 .. Len(HugeSeq) |-> <<Probes[3], HugeReq("chunked", HugeSeq[k], <<255, HugeSeq[k] - 255>>)>>]
 
-Case(k) == [id |-> k, script |-> Scripts[k], wire |-> Encode(Scripts[k]), offs |-> Offsets(Scripts[k])]
+Scripts == [k \in 1 .. Len(Singles) |-> <<Singles[k]>>] \o Pairs \o PairsRev \o Triples \o AmbigScripts \o HugeScripts
+
+\* (the huge bodies need MaxRequestBodySize above its default of 4 MiB)
+IsHuge(k) == k > Len(Scripts) - Len(HugeScripts)
+Case(k) == IF IsHuge(k)
+           THEN [id |-> k, script |-> Scripts[k], wire |-> Encode(Scripts[k]), offs |-> Offsets(Scripts[k]),
+                 fault |-> [truncate |-> 0, wfail |-> 0, maxBody |-> 16777216, stall |-> FALSE]]
+           ELSE [id |-> k, script |-> Scripts[k], wire |-> Encode(Scripts[k]), offs |-> Offsets(Scripts[k])]
 
 ASSUME \A k \in 1 .. Len(Scripts) : \A j \in 1 .. Len(Scripts[k]) : WellFormedReq(Scripts[k][j])
 ASSUME ndJsonSerialize(IOEnv.VERIF_OUT, [k \in 1 .. Len(Scripts) |-> Case(k)])
